@@ -1,6 +1,7 @@
 package main
 
 import (
+	"bytes"
 	"crypto/sha512"
 	"encoding/hex"
 	"fmt"
@@ -25,7 +26,27 @@ func shaHex(parts ...[]byte) (pre []byte, dig string) {
 
 func init() {
 	ops["HSH"] = func(a []string) string {
-		key, salt, nonce := unhx(a[0]), unhx(a[1]), unhx(a[2])
+		key, salt0, nonce := unhx(a[0]), unhx(a[1]), unhx(a[2])
+		// the caller's salt, nonce and key are windows into larger buffers of the caller's (spare capacity behind them)
+		window := func(b []byte) ([]byte, []byte) {
+			buf := make([]byte, len(b)+96)
+			for i := range buf {
+				buf[i] = 0xee
+			}
+			copy(buf, b)
+			return buf[:len(b)], buf
+		}
+		salt, saltBuf := window(salt0)
+		nonce, nonceBuf := window(nonce)
+		key, keyBuf := window(key)
+		untouched := func(w, buf []byte) bool {
+			for _, c := range buf[len(w):] {
+				if c != 0xee {
+					return false
+				}
+			}
+			return true
+		}
 		chost, shost, user, pw, tamper := string(unhx(a[3])), string(unhx(a[4])), string(unhx(a[5])), string(unhx(a[6])), a[7]
 		var ping *protocol.Ping
 		var err error
@@ -82,6 +103,12 @@ func init() {
 		out = append(out, fmt.Sprintf("pong=%v,%s,%s", pong.AuthResult, hx([]byte(pong.ServerHostname)), hx([]byte(pong.SharedKeyHexDigest))))
 		out = append(out, fmt.Sprintf("vpong=%s,%s,%s", hx([]byte(vq.ServerHostname)), hx([]byte(vq.SharedKeyHexDigest)), res(protocol.ValidatePongDigest(&vq, key2, nonce2, salt2))))
 		out = append(out, fmt.Sprintf("held=%s,%s,%s", hx(key2), hx(nonce2), hx(salt2)))
+		caller := "intact"
+		if !untouched(salt, saltBuf) || !untouched(nonce, nonceBuf) || !untouched(key, keyBuf) ||
+			!bytes.Equal(salt, salt0) {
+			caller = "modified"
+		}
+		out = append(out, "callermem="+caller)
 		for _, pre := range [][][]byte{
 			{salt, []byte(chost), nonce, key}, {salt, []byte(shost), nonce, key},
 			{vp.SharedKeySalt, []byte(vp.ClientHostname), nonce2, key2}, {salt2, []byte(vq.ServerHostname), nonce2, key2},
